@@ -3,9 +3,10 @@
 Recombines the shipped constructs with fresh names, widths, orders and nesting: aliases (integers of every
 width and sign, fixed buffers), enums and flag enums, plain / inline / abstract structs, const and reserved
 members, counted arrays of aliases and structs, byte arrays sized by a member, sort keys, named inlines of
-size-prefixed templates, sizeof and sizeref members with their conditionals, enum conditionals before and
+size-prefixed templates, sizeof and sizeref members with their conditionals (sizeref of a struct member and
+of a byte array), enum conditionals before and
 after their discriminant, discriminated factories with byte-sized aligned arrays, fill arrays (aligned
-`not pad_last` and plain) and counted arrays of abstract elements.
+`not pad_last` and plain, the plain ones with and without sort key) and counted arrays of abstract elements.
 """
 
 INT_TYPES = ['uint8', 'uint16', 'uint32', 'uint64', 'int8', 'int16', 'int32', 'int64']
@@ -177,6 +178,15 @@ class SchemaGen:
 		self.emit(*lines)
 		self.var_structs.append(holder)
 		self.features.update(['named-inline', 'sizeof', 'sizeref', 'conditional-computed'])
+		if self.variant is None and self.rng.random() < 0.5 or self.variant is not None and 0 == self.variant % 2:
+			# a sizeref naming a byte array: the computed value is the array's length plus the delta
+			envelope = self.fresh('Enveloped')
+			self.emit(
+				f'struct {envelope}', f'\t@sizeref(blob, {self.rng.choice([0, 2, 4])})', f'\tblob_envelope_size = {self.rng.choice(["uint16", "uint32"])}',
+				f'\tblob_size = {self.rng.choice(["uint8", "uint16"])}', f'\tblob = array({self.rng.choice(["uint8", "int8"])}, blob_size)',
+				f'\ttrailer = {self.rng.choice(INT_TYPES)}')
+			self.var_structs.append(envelope)
+			self.features.add('sizeref-byte-array')
 		return holder
 
 	def two_member_enum(self):
@@ -256,6 +266,17 @@ class SchemaGen:
 		self.var_structs.append(name)
 		return name
 
+	def fill_array(self, member):
+		"""Expandable array of a leaf struct, with a sort key on some of them."""
+		element, keys = self.rng.choice(self.leaf_structs)
+		lines = []
+		if keys and self.rng.random() < 0.5:
+			lines.append(f'\t@sort_key({self.rng.choice(keys)[0]})')
+			self.features.add('fill-array-sort-key')
+		lines.append(f'\t{member} = array({element}, __FILL__)')
+		self.features.add('fill-array')
+		return lines
+
 	def factory(self):
 		"""Abstract struct with @size / @discriminator / @initializes and concrete children."""
 		type_enum = self.fresh('Tag')
@@ -284,8 +305,7 @@ class SchemaGen:
 				else:
 					body.append(f'\tpay{member_index} = {self.rng.choice(INT_TYPES)}')
 			if self.leaf_structs and self.rng.random() < 0.35:
-				body.append(f'\ttrailing = array({self.rng.choice(self.leaf_structs)[0]}, __FILL__)')
-				self.features.add('fill-array')
+				body += self.fill_array('trailing')
 			self.emit(*body)
 			children.append(child)
 		self.features.add('factory' + ('-two-part' if two_part else ''))
@@ -299,7 +319,7 @@ class SchemaGen:
 			if 'not' in qualifier:
 				self.features.add('sized-aligned-array-not-pad-last')
 			if self.leaf_structs:
-				lines.append(f'\trest = array({self.rng.choice(self.leaf_structs)[0]}, __FILL__)')
+				lines += self.fill_array('rest')
 			self.features.add('sized-aligned-array')
 		elif 1 == mode:
 			lines += [f'\t@alignment({self.rng.choice([4, 8])}, not pad_last)', f'\tentities = array({base}, __FILL__)']
